@@ -289,7 +289,7 @@ pub fn check(c: &Case, ctx: &mut Ctx) -> Result<(), Failure> {
 
 pub fn run(tier: Tier, seed: u64) -> i32 {
     let t0 = Instant::now();
-    let sp = Spec { id: "C15", rule: RULE, tape_len: 260, cases: tier.pick(20_000, 500_000), gen: gen_case, check, max_shrink_iters: 3000, shards: 16 };
+    let sp = Spec { id: "C15", rule: RULE, tape_len: 260, cases: tier.pick(20_000, 300_000), gen: gen_case, check, max_shrink_iters: 3000, shards: 16 };
     let mut stats = engine::run_spec(&sp, tier, seed);
     engine::run_regressions::<Case>("C15", check, &mut stats);
     let extra = super::fuzzrun::maybe_fuzz("C15", "matrix_decomp", tier, seed, &mut stats, serde_json::json!({}));
